@@ -78,6 +78,10 @@ static Val run_lauth(const Val &c)
                     v.replace("<TOKEN:upper>", token.toUpper());
                     v.replace("<TOKEN:nobrace>", token.mid(1, token.size() - 2));
                     v.replace("<TOKEN:prefix>", token.left(10));
+                    for (int extra : {256, 512, 255, 38}) {       // the token written out cyclically, longer by [extra] bytes
+                        QByteArray cyc; while (cyc.size() < token.size() + extra) cyc += token;
+                        v.replace("<TOKEN:cyc" + QByteArray::number(extra) + ">", cyc.left(token.size() + extra));
+                    }
                     v.replace("<TOKEN>", token);
                     v.replace("<PREV>", prev);
                     head += kv.at(0).asBytes() + ":" + v + "\r\n";
